@@ -4,6 +4,10 @@
  *
  *   load  text=<ch,n,ch,n,...>          the description text is written to a scratch file and read
  *                                       through the real mpt::layout (open + load = parse, add_items, bind)
+ *   reload text=<ch,n,...>             the SAME layout object reads another description (open + load, no reset)
+ *   reset                               layout::reset()
+ *   gset  g=<i> name=<codes> text=<..>  object::set(name, text) on the i-th item of the layout (a graph)
+ *   gbind g=<i>                         that graph's bind() with the relation chain layout::bind gives it
  *   cload text=<ch,n,...>               C path: mpt_parse_node (format of layout::file_format()) and, per
  *                                       section "kind name", an object of that kind filled by
  *                                       mpt_object_set_nodes from the section's children
@@ -68,6 +72,10 @@ static int loaded = 0;
 
 static void drv_reset(void)
 {
+	if (scratch[0]) {
+		unlink(scratch);
+		scratch[0] = 0;
+	}
 	if (lay) {
 		lay->unref();
 		lay = 0;
@@ -335,11 +343,14 @@ static void drv_step(struct cmd *c)
 {
 	const char *a = c->action;
 
-	if (!strcmp(a, "load")) {
+	if (!strcmp(a, "load") || !strcmp(a, "reload")) {
 		char *txt = arg_rle(c, "text");
-		int op = 0, ld = 0;
-		drv_reset();
-		lay = new mpt::layout;
+		int op = 0, ld = 0, fresh = !strcmp(a, "load") || !lay;
+		if (fresh) {
+			drv_reset();
+			lay = new mpt::layout;
+		}
+		delete logc;
 		logc = new count_logger;
 		if (write_scratch(txt) < 0) {
 			drv_begin(c); j_str("ret", "no-scratch"); drv_dbg(); drv_end();
@@ -348,7 +359,6 @@ static void drv_step(struct cmd *c)
 		}
 		op = lay->open(scratch) ? 1 : 0;
 		if (op) ld = lay->load(logc) ? 1 : 0;
-		unlink(scratch);
 		loaded = op && ld;
 		drv_begin(c);
 		j_str("ret", loaded ? "ok" : "failed");
@@ -393,6 +403,47 @@ static void drv_step(struct cmd *c)
 	}
 	if (!lay) {
 		drv_begin(c); j_str("ret", "no-layout"); drv_dbg(); drv_end();
+		return;
+	}
+	if (!strcmp(a, "reset")) {
+		int r = lay->reset() ? 1 : 0;
+		drv_begin(c);
+		j_str("ret", r ? "ok" : "failed");
+		emit_layout(M_NONE);
+		drv_dbg();
+		drv_end();
+		return;
+	}
+	if (!strcmp(a, "gset") || !strcmp(a, "gbind")) {
+		long g = (long) drv_int(c, "g", 0), pos = 0;
+		mpt::metatype *mt = 0;
+		int rc = mpt::BadArgument;
+		for (const mpt::item<mpt::metatype> &it : lay->items()) {
+			if (pos++ == g) { mt = it.instance(); break; }
+		}
+		mpt::layout::graph *gr = mt ? static_cast<mpt::layout::graph *>(*mt) : 0;
+		delete logc;
+		logc = new count_logger;
+		if (gr && !strcmp(a, "gset")) {
+			char *name = arg_text(c, "name");
+			char *txt = arg_rle(c, "text");
+			mpt::object *o = gr;
+			rc = o->set(name, txt, logc) ? 0 : -1;
+			free(name);
+			free(txt);
+		}
+		else if (gr) {
+			mpt::collection::relation me(*lay);
+			mpt::collection::relation rel(*gr, &me);
+			rc = gr->bind(&rel, logc);
+		}
+		drv_begin(c);
+		j_str("ret", rc < 0 ? "refused" : "ok");
+		emit_layout(M_NONE);
+		drv_dbg();
+		j_int("rc", rc);
+		j_str("log", logc->text.c_str());
+		drv_end();
 		return;
 	}
 	if (!strcmp(a, "copy")) {
